@@ -11,7 +11,7 @@ PROP = "C06"
 LEVEL = "exploration"
 RULE = ("Hypothesis cases: r = A x - b with m >= n, n<=3, cond(A) <= 100 (repaired by construction, never rejected), "
         "h in {lam*||x||_1, lam*||x||_2}, lam in 1e-3..10, exact prox, lh = lam*sqrt(n) (L1) or lam (L2); unbounded / box "
-        "around the regularised minimiser / box that cuts it off / box around x0; calling convention in {closures, argsh+"
+        "around the regularised minimiser / box that cuts it off / box around x0, each as a full box, with a per-coordinate mix of finite and absent (+-1e20) bounds, or handed over as projections=[P_box]; calling convention in {closures, argsh+"
         "argsprox, argsh only, argsprox only}; default budget and rhoend; in a sixth of the cases x0 is the un-regularised "
         "solution (zero residual at the start), in a sixth the nsamples callback asks for 2 samples. Reference F* from FISTA with restarts run to a "
         "fixed point and certified by an explicit KKT check; uncertified references are discarded and counted. "
